@@ -21,7 +21,11 @@ fn all_types() -> Vec<Ty> {
     use Ty::*;
     vec![Char(None), Char(Some(7)), StrN(40), Str, Text, Tiny, Small, Int, Big, TinyU, SmallU, IntU, BigU, Float, Double, Dec(None), Dec(Some((12, 3))), DateTime, Timestamp, TimestampTz, Time, Date, Year,
          Interval(None, None), Interval(Some(PgInterval::YearToMonth), Some(4)), Interval(None, Some(2)), Binary(9), VarBinary(33), Bit(None), Bit(Some(5)), VarBit(6), Bool, Money(None), Money(Some((11, 2))), Json, JsonB, Uuid, Custom,
-         ArrayInt, ArrayArrayStr, Cidr, Inet, MacAddr, LTree, Blob]
+         ArrayInt, ArrayArrayStr, Cidr, Inet, MacAddr, LTree, Blob,
+         // every field restriction of a Postgres interval
+         Interval(Some(PgInterval::Year), None), Interval(Some(PgInterval::Month), None), Interval(Some(PgInterval::Day), None), Interval(Some(PgInterval::Hour), None), Interval(Some(PgInterval::Minute), None),
+         Interval(Some(PgInterval::Second), Some(3)), Interval(Some(PgInterval::DayToHour), None), Interval(Some(PgInterval::DayToMinute), None), Interval(Some(PgInterval::DayToSecond), Some(6)),
+         Interval(Some(PgInterval::HourToMinute), None), Interval(Some(PgInterval::HourToSecond), Some(3)), Interval(Some(PgInterval::MinuteToSecond), None)]
 }
 fn set_type(c: &mut ColumnDef, t: &Ty) {
     use Ty::*;
@@ -53,7 +57,9 @@ fn type_text(d: D, t: &Ty) -> Option<String> {
         (D::My, TimestampTz) => s("timestamp"), (D::Pg, TimestampTz) => s("timestamp with time zone"), (_, Time) => s("time"), (_, Date) => s("date"),
         (D::My, Year) => s("year"), (D::Pg, Year) => None,
         (D::My, Interval(..)) => s("unsupported"),       // RECORDED FINDING C14-mysql-interval-unsupported: not a MySQL type
-        (D::Pg, Interval(f, p)) => Some(format!("interval{}{}", match f { Some(PgInterval::YearToMonth) => " YEAR TO MONTH".to_string(), Some(_) => " ?".into(), None => String::new() }, match p { Some(p) => format!("({p})"), None => String::new() })),
+        (D::Pg, Interval(f, p)) => Some(format!("interval{}{}", match f { Some(f) => format!(" {}", match f { PgInterval::Year => "YEAR", PgInterval::Month => "MONTH", PgInterval::Day => "DAY", PgInterval::Hour => "HOUR", PgInterval::Minute => "MINUTE", PgInterval::Second => "SECOND",
+            PgInterval::YearToMonth => "YEAR TO MONTH", PgInterval::DayToHour => "DAY TO HOUR", PgInterval::DayToMinute => "DAY TO MINUTE", PgInterval::DayToSecond => "DAY TO SECOND",
+            PgInterval::HourToMinute => "HOUR TO MINUTE", PgInterval::HourToSecond => "HOUR TO SECOND", PgInterval::MinuteToSecond => "MINUTE TO SECOND" }), None => String::new() }, match p { Some(p) => format!("({p})"), None => String::new() })),
         (D::My, Binary(n)) => Some(format!("binary({n})")), (D::My, VarBinary(n)) => Some(format!("varbinary({n})")), (D::My, Blob) => s("blob"),
         (D::Pg, Binary(_)) | (D::Pg, VarBinary(_)) | (D::Pg, Blob) => s("bytea"),
         (_, Bit(None)) => s("bit"), (_, Bit(Some(n))) => Some(format!("bit({n})")), (D::My, VarBit(n)) => Some(format!("bit({n})")), (D::Pg, VarBit(n)) => Some(format!("varbit({n})")),
